@@ -45,3 +45,12 @@
 #ifndef M_VERIF_LOOPSPEC_mod_kinds
 #define M_VERIF_LOOPSPEC_mod_kinds
 #endif
+#ifndef M_VERIF_LOOPSPEC_len_subs
+#define M_VERIF_LOOPSPEC_len_subs
+#endif
+#ifndef M_VERIF_LOOPSPEC_len_kinds
+#define M_VERIF_LOOPSPEC_len_kinds
+#endif
+#ifndef M_VERIF_LOOPSPEC_len_srcs
+#define M_VERIF_LOOPSPEC_len_srcs
+#endif
